@@ -128,6 +128,16 @@ impl FxTracker {
             });
         }
 
+        if other_fxt.amount.is_zero() {
+            return Err(SheetParseError::new(
+                fxt_row.row_num,
+                format!(
+                    "FXT on {} has a zero {} amount",
+                    other_fxt.trade_date, other_fxt.currency
+                ),
+            ));
+        }
+
         let rate = (cad_fxt.amount / other_fxt.amount).abs();
 
         let tx = FxTracker::fx_tx(
